@@ -227,8 +227,64 @@ fn view(r: &Raw) -> View {
     }
 }
 
+/// PLtoTF's hash table of (left, right) pairs has this many slots; with that many distinct pairs PLtoTF
+/// stops looking at further instructions and prints "Sorry, I haven't room for so many ligature/kern pairs!".
+const PLTOTF_HASH_SIZE: usize = 5003;
+
+/// Why PLtoTF would clear the seven-bit-safe flag (empty = the font is seven-bit safe). PLtoTF 110-113:
+/// `seven_unsafe` becomes true when an EXISTING character c < 128 has NEXTLARGER g >= 128, a VARCHAR piece >= 128
+/// (`check_existence_and_safety`), or when the lig/kern program of c < 128 or of the left boundary (c = 256) has a
+/// LIG instruction inserting a character >= 128 whose right character is < 128 or is the boundary character;
+/// an instruction shadowed by an earlier one for the same right character does not count (`hash_input` is
+/// false for it). Labels of non-existent characters do not count (`char_wd[c] <> 0`).
+fn unsafe_reasons(v: &View) -> Vec<&'static str> {
+    let mut why = vec![];
+    for (c, ch) in &v.chars {
+        if *c >= 128 {
+            continue;
+        }
+        match &ch.tag {
+            TagV::List(g) if *g >= 128 => why.push("7bit: unsafe by NEXTLARGER"),
+            TagV::Ext(e) if e.iter().any(|p| *p >= 128) => why.push("7bit: unsafe by VARCHAR"),
+            _ => {}
+        }
+    }
+    for ((l, r), op) in &v.lig {
+        let left_counts = *l == LEFT_BOUNDARY || (*l < 128 && v.chars.contains_key(&(*l as u8)));
+        if let (true, OpV::Lig(_, z)) = (left_counts, op) {
+            if *z >= 128 {
+                if *r < 128 {
+                    why.push(if *l == LEFT_BOUNDARY { "7bit: unsafe by LIG in the left boundary program" } else { "7bit: unsafe by LIG" });
+                } else if Some(*r) == v.boundary_char {
+                    why.push("7bit: unsafe by LIG whose right character is the boundary char >= 128");
+                }
+            }
+        }
+    }
+    why.sort();
+    why.dedup();
+    why
+}
+
+/// An instruction that would make the font unsafe but is shadowed by an earlier one for the same pair.
+fn shadowed_eight_bit_lig(r: &Raw, v: &View) -> bool {
+    v.walks.iter().any(|(l, walk)| {
+        (*l == LEFT_BOUNDARY || (*l < 128 && v.chars.contains_key(&(*l as u8))))
+            && walk.iter().any(|i| {
+                let s = r.lk[*i];
+                s[2] < 128 && s[3] >= 128 && (s[1] < 128 || Some(s[1]) == v.boundary_char) && v.lig.get(&(*l, s[1])) != Some(&OpV::Lig(s[2], s[3]))
+            })
+    })
+}
+
 fn upper(s: &[u8]) -> Vec<u8> {
     s.iter().map(|c| c.to_ascii_uppercase()).collect()
+}
+
+/// What PLtoTF 87 (read_BCPL) keeps of a header string that TFtoPL 52 printed: leading blanks are skipped.
+fn pl_string(s: &[u8]) -> Vec<u8> {
+    let lead = s.iter().take_while(|c| **c == b' ').count();
+    upper(&s[lead..])
 }
 
 fn show(s: &Option<Vec<u8>>) -> String {
@@ -264,11 +320,12 @@ fn compare_views(a: &View, b: &View) -> Result<(), String> {
     }
     // TFtoPL 52 prints lower-case letters of the two header strings in upper case without a warning;
     // PLtoTF 70 supplies UNSPECIFIED / face 0 when the original header is too short to have the field.
-    let want_scheme = Some(a.scheme.as_ref().map(|s| upper(s)).unwrap_or_else(|| b"UNSPECIFIED".to_vec()));
+    // PLtoTF 87 skips the blanks in front of a string, so a string that starts with blanks loses them (F2).
+    let want_scheme = Some(a.scheme.as_ref().map(|s| pl_string(s)).unwrap_or_else(|| b"UNSPECIFIED".to_vec()));
     if b.scheme != want_scheme {
         return Err(format!("coding scheme: original {}, canonical {}", show(&a.scheme), show(&b.scheme)));
     }
-    let want_family = Some(a.family.as_ref().map(|s| upper(s)).unwrap_or_else(|| b"UNSPECIFIED".to_vec()));
+    let want_family = Some(a.family.as_ref().map(|s| pl_string(s)).unwrap_or_else(|| b"UNSPECIFIED".to_vec()));
     if b.family != want_family {
         return Err(format!("family: original {}, canonical {}", show(&a.family), show(&b.family)));
     }
@@ -364,9 +421,29 @@ fn to_pl(b: &[u8], fmt: u8) -> Result<(String, Vec<String>), String> {
     }
 }
 
-fn to_tfm(pl: &str) -> (Vec<u8>, Vec<String>) {
+/// A PLtoTF warning, classified on the enum (not on its Debug spelling).
+#[derive(Clone, Debug, PartialEq, Eq)]
+enum PlWarn {
+    /// "The font is not really seven-bit-safe!" (PLtoTF 110)
+    SevenBit,
+    /// a PARAMETER number PLtoTF cannot take (0, 255, more than 255)
+    ParamNumber,
+    /// anything else; the text is for the failure message only
+    Other(String),
+}
+
+fn to_tfm(pl: &str) -> (Vec<u8>, Vec<PlWarn>) {
+    use tfm::pl::ParseWarningKind as K;
     let (b, w) = tfm::algorithms::pl_to_tfm(pl);
-    (b, w.iter().map(|x| format!("{:?}", x.kind)).collect())
+    let w = w
+        .iter()
+        .map(|x| match &x.kind {
+            K::NotReallySevenBitSafe => PlWarn::SevenBit,
+            K::SmallIntegerIsTooBig { .. } | K::ParameterNumberIsZero | K::ParameterNumberIsTooBig => PlWarn::ParamNumber,
+            other => PlWarn::Other(format!("{:?}", other)),
+        })
+        .collect();
+    (b, w)
 }
 
 fn opts(left_boundary: bool) -> tfm::ligkern::RunOptions {
@@ -498,6 +575,17 @@ fn classify(v: &View, case: &mut Case) -> Shape {
     }
     case.class_if(v.chars.values().any(|c| matches!(c.tag, TagV::List(_))), "tag: NEXTLARGER");
     case.class_if(v.chars.values().any(|c| matches!(c.tag, TagV::Ext(_))), "tag: VARCHAR");
+    case.class_if(v.chars.values().any(|c| matches!(c.tag, TagV::Ext(e) if e[..3].contains(&0))), "tag: VARCHAR with an absent piece");
+    let next = |c: u8| match v.chars.get(&c).map(|x| &x.tag) {
+        Some(TagV::List(d)) => Some(*d),
+        _ => None,
+    };
+    case.class_if(v.chars.keys().any(|c| next(*c).and_then(next).and_then(next).is_some()), "tag: NEXTLARGER chain of >= 3 links");
+    case.class_if(v.boundary_char.map(|b| !v.chars.contains_key(&b)).unwrap_or(false), "lig: boundary char is not a character of the font");
+    case.class_if(v.chars.values().any(|c| c.w.unwrap_or(0) < 0), "dimen: negative width");
+    case.class_if(v.chars.values().any(|c| c.h.unwrap_or(0) < 0), "dimen: negative height");
+    case.class_if(v.chars.values().any(|c| c.d.unwrap_or(0) < 0), "dimen: negative depth");
+    case.class_if(v.chars.values().any(|c| c.i.unwrap_or(0) < 0), "dimen: negative italic correction");
     let n = v.chars.len();
     case.class(match n {
         0 => "chars: 0",
@@ -510,8 +598,118 @@ fn classify(v: &View, case: &mut Case) -> Shape {
     Shape { shared, big, boundary_rule: left_prog || right_rule }
 }
 
-/// The whole oracle on one original file. `fmt` selects the display format of the main legs.
-fn check_font(t0: &[u8], fmt: u8, case: &mut Case) -> Verdict {
+/// Instruction indices reached from `start` by following skip bytes (TeX 1039 / TFtoPL 70).
+fn walk_from(r: &Raw, start: usize) -> Vec<usize> {
+    let nl = r.lk.len();
+    let (mut i, mut guard, mut walk) = (start, 0, vec![]);
+    while i < nl && guard <= nl {
+        guard += 1;
+        let s = r.lk[i];
+        if s[0] > 128 {
+            break;
+        }
+        walk.push(i);
+        if s[0] >= 128 {
+            break;
+        }
+        i += s[0] as usize + 1;
+    }
+    walk
+}
+
+/// Tags in char_info words of NON-EXISTENT characters (width index 0), "orphans". TFtoPL 67/89 treat a lig tag of
+/// such a slot like any other (`for c:=bc to ec do if tag(c)=lig_tag`): it gets a LABEL and keeps its instructions
+/// reachable; PLtoTF 124/131 writes it back iff the code lies between the first and the last existing character.
+#[derive(Default, Debug)]
+struct Orphans {
+    lig_inside: bool,
+    /// outside the tight range, every instruction it reaches is also reached by an existing character / the boundary
+    lig_outside_shared: bool,
+    /// outside the tight range and the only way to reach some instruction
+    lig_outside_own: bool,
+    other_tag: bool,
+}
+
+fn orphans(r: &Raw, v: &View) -> Orphans {
+    let mut o = Orphans::default();
+    let (lo, hi) = match (v.chars.keys().next(), v.chars.keys().next_back()) {
+        (Some(a), Some(b)) => (*a as usize, *b as usize),
+        _ => (256, 0),
+    };
+    let live: BTreeSet<usize> = v.walks.values().flatten().copied().collect();
+    for (k, w) in r.ci.iter().enumerate() {
+        if w[0] != 0 || w[2] & 3 == 0 {
+            continue;
+        }
+        if w[2] & 3 != 1 {
+            o.other_tag = true;
+            continue;
+        }
+        let code = r.bc + k;
+        if code >= lo && code <= hi {
+            o.lig_inside = true;
+            continue;
+        }
+        let rem = w[3] as usize;
+        let start = match r.lk.get(rem) {
+            Some(s) if s[0] > 128 => 256 * s[2] as usize + s[3] as usize,
+            _ => rem,
+        };
+        if walk_from(r, start).iter().all(|i| live.contains(i)) {
+            o.lig_outside_shared = true;
+        } else {
+            o.lig_outside_own = true;
+        }
+    }
+    o
+}
+
+/// t0 with the lig tags of non-existent characters outside the tight character range erased.
+fn erase_outside_orphans(t0: &[u8]) -> Option<Vec<u8>> {
+    let r = read_tfm(t0).ok()?;
+    let existing: Vec<usize> = r.ci.iter().enumerate().filter(|(_, w)| w[0] != 0).map(|(k, _)| k).collect();
+    let (lo, hi) = match (existing.first(), existing.last()) {
+        (Some(a), Some(b)) => (*a, *b),
+        _ => (usize::MAX, 0),
+    };
+    let mut out = t0.to_vec();
+    let mut any = false;
+    for (k, w) in r.ci.iter().enumerate() {
+        if w[0] == 0 && w[2] & 3 == 1 && (k < lo || k > hi) {
+            let at = 24 + 4 * r.header.len() + 4 * k;
+            out[at + 2] &= !3;
+            out[at + 3] = 0;
+            any = true;
+        }
+    }
+    any.then_some(out)
+}
+
+pub const ORPHAN_FLAG: &str = "flag:lig_label_of_absent_char_outside_bc_ec_survives_one_round_trip";
+
+/// The deviating model behind ORPHAN_FLAG, exact in bytes. Knuth's programs (and the crate) treat a lig tag of a
+/// non-existent character outside the range of existing characters in two steps: TFtoPL prints its LABEL and keeps
+/// its instructions alive, PLtoTF then cannot store the tag (bc..ec is the tight range) but still writes the
+/// instructions; only the NEXT round trip comments them out as unreachable. So the model predicts: the second
+/// round trip of t0 equals the first round trip of t0-with-those-tags-erased, and that file is a fixed point.
+fn orphan_model_predicts(t0: &[u8], t2: &[u8], fmt: u8) -> bool {
+    let rt = |b: &[u8]| -> Option<Vec<u8>> {
+        let (p, w) = to_pl(b, fmt).ok()?;
+        if !w.is_empty() {
+            return None;
+        }
+        let (t, w) = to_tfm(&p);
+        w.is_empty().then_some(t)
+    };
+    match erase_outside_orphans(t0) {
+        None => false,
+        Some(t0e) => rt(&t0e).as_deref() == Some(t2) && rt(t2).as_deref() == Some(t2),
+    }
+}
+
+/// The whole oracle on one original file. `fmt` selects the display format of the main legs;
+/// `known_orphan` = ORPHAN_FLAG is a listed finding.
+fn check_font(t0: &[u8], fmt: u8, known_orphan: bool, case: &mut Case) -> Verdict {
     // leg 1 must be warning-free, otherwise the file is outside the quantifier
     let leg1 = crate::engine::panics::catch(|| to_pl(t0, fmt));
     let (pl0, w0) = match leg1 {
@@ -527,13 +725,20 @@ fn check_font(t0: &[u8], fmt: u8, case: &mut Case) -> Verdict {
         // The property list format cannot carry every TFM: PLtoTF rejects parameter numbers above 254
         // (TFtoPL prints them all the same) and re-derives the seven-bit-safe flag. Such fonts do not
         // "convert without warnings"; any other warning about TFtoPL's own output is a failure.
-        let inherent = |w: &String| w.starts_with("SmallIntegerIsTooBig") || w.starts_with("ParameterNumberIsZero") || w.starts_with("ParameterNumberIsTooBig") || w.starts_with("NotReallySevenBitSafe");
         let np = read_tfm(t0).map(|r| r.param.len()).unwrap_or(0);
-        let seven = w1.iter().any(|w| w.starts_with("NotReallySevenBitSafe"));
-        if w1.iter().all(inherent) && (np >= 255 || (seven && w1.len() == 1)) {
-            return Verdict::Skip(if seven { "pl_to_tfm: t0 claims seven-bit safety wrongly" } else { "pl_to_tfm: t0 has more than 254 parameters (not expressible in PL)" });
+        if w1.iter().all(|w| *w == PlWarn::SevenBit) {
+            // legitimate only if PLtoTF's own rule (110-113) calls the font unsafe
+            return match read_tfm(t0).map(|r| view(&r)) {
+                Ok(v) if unsafe_reasons(&v).is_empty() && v.lig.len() < PLTOTF_HASH_SIZE => {
+                    Verdict::Fail("(ii) pl_to_tfm reports \"not really seven-bit-safe\" for a font whose flag is set rightly: by PLtoTF 110-113 no character below 128 generates one above 127".into())
+                }
+                _ => Verdict::Skip("pl_to_tfm: t0 claims seven-bit safety wrongly"),
+            };
         }
-        let mut kinds: Vec<String> = w1.iter().map(|w| w.chars().take(120).collect()).collect();
+        if np >= 255 && w1.iter().all(|w| matches!(w, PlWarn::SevenBit | PlWarn::ParamNumber)) {
+            return Verdict::Skip("pl_to_tfm: t0 has more than 254 parameters (not expressible in PL)");
+        }
+        let mut kinds: Vec<String> = w1.iter().map(|w| format!("{:?}", w).chars().take(120).collect()).collect();
         kinds.dedup();
         kinds.truncate(6);
         return Verdict::Fail(format!("(i) pl_to_tfm rejects parts of the warning-free output of tfm_to_pl(t0): {} warnings, e.g. {:?}", w1.len(), kinds));
@@ -550,9 +755,18 @@ fn check_font(t0: &[u8], fmt: u8, case: &mut Case) -> Verdict {
     if !wb.is_empty() {
         return Verdict::Fail(format!("(i) pl_to_tfm(tfm_to_pl(t1)) warns: {:?}", wb));
     }
+    let mut known_hit = false;
     if t2 != t1 {
         let at = t1.iter().zip(t2.iter()).position(|(a, b)| a != b).unwrap_or(t1.len().min(t2.len()));
-        return Verdict::Fail(format!("(i) second round trip is not the identity: lengths {} -> {}, first difference at byte {}", t1.len(), t2.len(), at));
+        let msg = format!("(i) second round trip is not the identity: lengths {} -> {}, first difference at byte {}", t1.len(), t2.len(), at);
+        if !orphan_model_predicts(t0, &t2, fmt) {
+            return Verdict::Fail(msg);
+        }
+        if !known_orphan {
+            return Verdict::Fail(format!("{msg}; t0 gives a lig tag to a non-existent character outside the range of existing characters and t2 is exactly what {ORPHAN_FLAG} predicts"));
+        }
+        // everything else is still demanded of t1
+        known_hit = true;
     }
     // (i') the canonical file does not depend on how characters are displayed
     for other in 0..3u8 {
@@ -586,6 +800,19 @@ fn check_font(t0: &[u8], fmt: u8, case: &mut Case) -> Verdict {
     if v0.seven_bit == Some(true) && v1.seven_bit != Some(true) {
         return Verdict::Fail("(ii) seven-bit-safe flag lost".into());
     }
+    // PLtoTF 133 writes the flag it computed itself, whatever the property list claims: the canonical file
+    // carries it exactly when PLtoTF 110-113 finds the font safe (both directions).
+    let why1 = unsafe_reasons(&v1);
+    let hash_full = v1.lig.len() >= PLTOTF_HASH_SIZE;
+    case.class_if(hash_full, "7bit: >= 5003 lig/kern pairs (PLtoTF's hash table is full, flag not demanded)");
+    if !hash_full && v1.seven_bit != Some(why1.is_empty()) {
+        return Verdict::Fail(format!(
+            "(ii) seven-bit-safe flag of the canonical file is {:?}, but by PLtoTF 110-113 the font is {} {:?}",
+            v1.seven_bit,
+            if why1.is_empty() { "safe" } else { "unsafe" },
+            why1
+        ));
+    }
     // (iii-a)
     if let Err(e) = compare_ligmaps(&v0, &v1) {
         return Verdict::Fail(format!("(iii) lig/kern instruction selected by TeX: {e}"));
@@ -607,9 +834,72 @@ fn check_font(t0: &[u8], fmt: u8, case: &mut Case) -> Verdict {
     case.class_if(r0.width.len() == 256, "widths: 255 distinct");
     case.class_if(r0.kern.len() > 256, "kerns: >256");
     case.class_if(r1.kern.len() > 256, "kerns: >256 in canonical file");
+    case.class_if(r1.lk.iter().any(|s| s[0] <= 128 && s[2] >= 129), "kerns: index >= 256 used in canonical file");
     case.class_if(r0.param.len() > 30, "params: >30");
+    case.class_if(r0.param.len() == 254, "params: exactly 254");
+    case.class_if(r0.param.first().map(|s| s.unsigned_abs() >= FIX_LIMIT as u32).unwrap_or(false), "params: |SLANT| >= 16");
     case.class_if(r0.header.len() > 24, "header: >24 words");
     case.class_if(r0.header.len() < 18, "header: <18 words");
+    case.class_if((3..12).contains(&r0.header.len()), "header: lh 3-11 (partial scheme)");
+    case.class_if((12..17).contains(&r0.header.len()), "header: lh 12-16 (scheme, partial family)");
+    case.class_if(r0.header.len() == 17, "header: lh 17 (no face word)");
+    case.class_if(r0.header.len() > 18 && r0.header.last() == Some(&[0; 4]), "header: last word is zero");
+    for (s, full, name_full, name_blank, name_lead) in [
+        (&v0.scheme, 39, "scheme: 39 bytes", "scheme: ends with a blank", "scheme: starts with a blank"),
+        (&v0.family, 19, "family: 19 bytes", "family: ends with a blank", "family: starts with a blank"),
+    ] {
+        if let Some(s) = s {
+            case.class_if(s.len() == full, name_full);
+            case.class_if(s.last() == Some(&b' '), name_blank);
+            case.class_if(s.first() == Some(&b' '), name_lead);
+        }
+    }
+    // seven-bit safety
+    let mixed = v0.chars.keys().any(|c| *c < 128) && v0.chars.keys().any(|c| *c >= 128);
+    case.class_if(mixed && why1.is_empty(), "7bit: mixed font, safe");
+    case.class_if(mixed && !why1.is_empty(), "7bit: mixed font, unsafe");
+    for w in &why1 {
+        case.class(w);
+    }
+    case.class_if(shadowed_eight_bit_lig(&r1, &v1), "7bit: an 8-bit LIG is shadowed by an earlier instruction");
+    case.class_if(v0.seven_bit == Some(true), "7bit: t0 has the flag");
+    case.class_if(v0.seven_bit != Some(true) && v1.seven_bit == Some(true), "7bit: flag gained (t0 safe but unflagged)");
+    // skips
+    let max_skip = |r: &Raw| r.lk.iter().filter(|s| s[0] < 128).map(|s| s[0]).max().unwrap_or(0);
+    case.class_if(max_skip(&r0) >= 64, "skip: >= 64 in t0");
+    case.class_if(max_skip(&r1) >= 64, "skip: >= 64 in canonical file");
+    case.class_if(max_skip(&r1) >= 100, "skip: >= 100 in canonical file");
+    let lands_on_last = |r: &Raw, v: &View| {
+        let live: BTreeSet<usize> = v.walks.values().flatten().copied().collect();
+        live.iter().any(|i| r.lk[*i][0] > 0 && r.lk[*i][0] < 128 && i + r.lk[*i][0] as usize + 1 == r.lk.len() - 1)
+    };
+    case.class_if(lands_on_last(&r0, &v0), "skip: lands on the last instruction of t0");
+    case.class_if(lands_on_last(&r1, &v1), "skip: lands on the last instruction of the canonical file");
+    {
+        let live: BTreeSet<usize> = v0.walks.values().flatten().copied().collect();
+        let mixed_range = live.iter().any(|i| {
+            let m = r0.lk[*i][0] as usize;
+            m > 0 && m < 128 && {
+                let inside = (i + 1..i + 1 + m).filter(|j| live.contains(j)).count();
+                inside > 0 && inside < m
+            }
+        });
+        case.class_if(mixed_range, "skip: range with reachable and unreachable instructions");
+    }
+    // orphans
+    let o = orphans(&r0, &v0);
+    case.class_if(o.lig_inside, "t0: orphan lig tag inside the tight range");
+    case.class_if(o.lig_outside_shared, "t0: orphan lig tag outside the tight range, shared chain");
+    case.class_if(o.lig_outside_own, "t0: orphan lig tag outside the tight range, own chain");
+    case.class_if(o.other_tag, "t0: orphan NEXTLARGER/VARCHAR tag");
+    let zero_at = |w: &[u8; 4]| {
+        let at = |t: &Vec<i32>, k: usize| k > 0 && t.get(k) == Some(&0);
+        w[0] != 0 && (at(&r0.height, (w[1] >> 4) as usize) || at(&r0.depth, (w[1] & 15) as usize) || at(&r0.italic, (w[2] >> 2) as usize))
+    };
+    case.class_if(r0.ci.iter().any(zero_at), "t0: non-zero index of a zero height/depth/italic");
+    if known_hit {
+        return Verdict::Known(ORPHAN_FLAG.into());
+    }
     Verdict::pass(shape.shared || shape.big || shape.boundary_rule)
 }
 
@@ -664,6 +954,16 @@ pub struct Recipe {
     pub align: Option<u16>,
     pub layout: u8,
     pub fmt: u8,
+    /// (skip amount selector, label selector, shape): one more chain `LABEL, step SKIP 64..127, skipped steps
+    /// (with a second label somewhere inside), target step(s)` at the end of the table
+    #[serde(default)]
+    pub long_skip: Option<(u8, u16, u16)>,
+    /// characters below 128 prefer to generate (LIG, NEXTLARGER, VARCHAR) characters below 128
+    #[serde(default)]
+    pub seven_bias: bool,
+    /// like the selector of `scheme`: 2 = exactly 19 bytes, 3 = trailing blank, 4 = 19 bytes ending in a blank
+    #[serde(default)]
+    pub family_kind: u8,
 }
 
 #[derive(Clone, Copy, Debug, PartialEq, Eq)]
@@ -730,6 +1030,15 @@ fn dedup_keep_order(v: &[i32], max: usize, allow_zero: bool) -> Vec<i32> {
     out
 }
 
+/// With `on`, the codes below 128 if there are any.
+fn prefer7(v: Vec<u8>, on: bool) -> Vec<u8> {
+    if on && v.iter().any(|c| *c < 128) {
+        v.into_iter().filter(|c| *c < 128).collect()
+    } else {
+        v
+    }
+}
+
 fn clean_string(v: &[u8], max: usize) -> Vec<u8> {
     // visible ASCII, no parentheses, no leading/trailing blank
     let mut s: Vec<u8> = v.iter().map(|c| 32 + c % 95).map(|c| if c == b'(' || c == b')' { b'-' } else { c }).take(max).collect();
@@ -738,6 +1047,31 @@ fn clean_string(v: &[u8], max: usize) -> Vec<u8> {
     }
     while s.last() == Some(&b' ') {
         s.pop();
+    }
+    s
+}
+
+/// kind 2: exactly `max` bytes; 3: ends with one or two blanks; 4: `max` bytes, the last one a blank; else clean.
+fn shape_string(raw: &[u8], max: usize, kind: u8) -> Vec<u8> {
+    let mut s = clean_string(raw, max);
+    match kind % 8 {
+        2 | 4 => {
+            let seed = if s.is_empty() { b"FULL LENGTH ".to_vec() } else { s.clone() };
+            let mut k = 0;
+            while s.len() < max {
+                s.push(seed[k % seed.len()]);
+                k += 1;
+            }
+            s[max - 1] = if kind % 8 == 4 { b' ' } else if s[max - 1] == b' ' { b'X' } else { s[max - 1] };
+        }
+        3 if !s.is_empty() => {
+            for _ in 0..1 + raw.len() % 2 {
+                if s.len() < max {
+                    s.push(b' ');
+                }
+            }
+        }
+        _ => {}
     }
     s
 }
@@ -793,6 +1127,7 @@ fn build(r: &Recipe) -> GFont {
         let tag = match c.tag % 10 {
             6 | 7 => {
                 let bigger: Vec<u8> = codes.iter().copied().filter(|d| key(*d) > key(*code)).collect();
+                let bigger = prefer7(bigger, r.seven_bias && *code < 128);
                 if bigger.is_empty() {
                     TagV::None
                 } else {
@@ -802,6 +1137,8 @@ fn build(r: &Recipe) -> GFont {
             8 | 9 => {
                 // a piece with code 0 means "absent" in the TFM format, so 0 is never a piece
                 let nz: Vec<u8> = codes.iter().copied().filter(|d| *d != 0).collect();
+                let nz = prefer7(nz, r.seven_bias && *code < 128);
+                let reps = prefer7(codes.clone(), r.seven_bias && *code < 128);
                 let piece = |sel: u16| -> u8 {
                     if nz.is_empty() || sel % 3 == 0 {
                         0
@@ -809,7 +1146,7 @@ fn build(r: &Recipe) -> GFont {
                         nz[(sel / 3) as usize % nz.len()]
                     }
                 };
-                TagV::Ext([piece(c.t[0]), piece(c.t[1]), piece(c.t[2]), pick(c.t[3])])
+                TagV::Ext([piece(c.t[0]), piece(c.t[1]), piece(c.t[2]), reps[c.t[3] as usize % reps.len()]])
             }
             _ => TagV::None,
         };
@@ -873,7 +1210,7 @@ fn build(r: &Recipe) -> GFont {
                             kern_counter += 1;
                             kern
                         } else {
-                            let cands = by_level(max_level.max(right_level) + 1);
+                            let cands = prefer7(by_level(max_level.max(right_level) + 1), r.seven_bias);
                             if cands.is_empty() {
                                 kern
                             } else {
@@ -889,6 +1226,14 @@ fn build(r: &Recipe) -> GFont {
                         };
                         out.push(GItem::Step(GStep { right: right_c, op, next: nx }));
                     }
+                }
+            }
+            // with a big kern pool every step is reachable: the first label goes in front of the first step,
+            // so that kern indices >= 256 survive into the canonical file
+            if kerns.len() >= 300 {
+                if let Some(k) = out.iter().position(|it| matches!(it, GItem::Label(_))) {
+                    let l = out.remove(k);
+                    out.insert(0, l);
                 }
             }
             // a label must be followed by at least one step
@@ -922,8 +1267,10 @@ fn build(r: &Recipe) -> GFont {
             if let Some(j) = (1..chains.len()).rev().find(|j| starts[*j] <= target && matches!(chains[*j].first(), Some(GItem::Label(_)))) {
                 let pad = target - starts[j];
                 let prev = &mut chains[j - 1];
+                // now and then the pad is jumped over (as far as SKIP can jump): unreachable, dropped by normalisation
+                let jump = target % 4 == 0 && pad >= 2;
                 if let Some(GItem::Step(last)) = prev.last_mut() {
-                    last.next = GNext::Cont;
+                    last.next = if jump { GNext::Skip((pad - 1).min(127) as u8) } else { GNext::Cont };
                 }
                 for q in 0..pad {
                     let right = codes[q % n];
@@ -936,12 +1283,37 @@ fn build(r: &Recipe) -> GFont {
                 }
             }
         }
+        // one chain with a long SKIP (PLtoTF 105 allows up to 127) at the very end of the table
+        if let Some((a, b, c)) = r.long_skip {
+            let free: Vec<u8> = codes.iter().copied().filter(|c| !tagged.contains(c) && !labelled.contains(&(*c as u16))).collect();
+            if !free.is_empty() {
+                let m = 64 + (a % 64) as usize;
+                let b = b as usize;
+                let kern_at = |q: usize| OpV::Kern(Some(kerns[q % kerns.len()]));
+                let mut ch = vec![GItem::Label(free[b % free.len()] as u16), GItem::Step(GStep { right: codes[0], op: kern_at(0), next: GNext::Skip(m as u8) })];
+                // a second label inside the skipped range makes its tail reachable (so a large skip survives)
+                let inner = if free.len() > 1 && c % 5 != 0 { Some((if c % 2 == 0 { (b / 7) % (m - 62) } else { (b / 7) % m }, free[(b + 1) % free.len()])) } else { None };
+                for q in 0..m {
+                    match inner {
+                        Some((p, l1)) if p == q => ch.push(GItem::Label(l1 as u16)),
+                        _ => {}
+                    }
+                    ch.push(GItem::Step(GStep { right: codes[(q + 1) % n], op: kern_at(q + 1), next: GNext::Cont }));
+                }
+                // the target of the skip: the last instruction of the whole table when tail == 0
+                let tail = (c / 10 % 4) as usize;
+                for q in 0..=tail {
+                    ch.push(GItem::Step(GStep { right: codes[(m + q + 1) % n], op: kern_at(m + q + 1), next: if q == tail { GNext::Stop } else { GNext::Cont } }));
+                }
+                chains.push(ch);
+            }
+        }
     }
     // header
     let scheme = r.scheme.as_ref().map(|(kind, raw)| match kind % 8 {
         0 => b"TeX math symbols".to_vec(),
         1 => b"TEX MATH EXTENSION".to_vec(),
-        _ => clean_string(raw, 39),
+        k => shape_string(raw, 39, k),
     });
     let mut params: Vec<i32> = r.params.iter().enumerate().map(|(k, v)| if k == 0 { *v } else { (*v).clamp(-(FIX_LIMIT - 1), FIX_LIMIT - 1) }).collect();
     if let Some(s) = &scheme {
@@ -961,7 +1333,7 @@ fn build(r: &Recipe) -> GFont {
         checksum: r.checksum,
         design_size: r.design_size.clamp(1 << 20, i32::MAX),
         scheme,
-        family: r.family.as_ref().map(|f| clean_string(f, 19)),
+        family: r.family.as_ref().map(|f| shape_string(f, 19, r.family_kind)),
         face: r.face,
         seven_flag: match r.seven_flag % 8 {
             0 => Some(false),
@@ -1252,8 +1624,22 @@ fn recipe() -> BoxedStrategy<Recipe> {
                 proptest::option::weighted(0.7, proptest::collection::vec(any::<u8>(), 0..=19)),
                 proptest::option::weighted(0.7, prop_oneof![3 => 0u8..18, 1 => any::<u8>()]),
                 any::<u8>(),
-                proptest::collection::vec((prop_oneof![4 => 0u8..6, 1 => any::<u8>()], any::<u32>()), 0..=3),
-                prop_oneof![10 => proptest::collection::vec(fixword(), 0..=30), 1 => proptest::collection::vec(fixword(), 200..=254)],
+                // a zero word now and then: as the last HEADER word it must survive (PLtoTF 91 / TFtoPL 56 keep it)
+                proptest::collection::vec((prop_oneof![4 => 0u8..6, 1 => any::<u8>()], prop_oneof![4 => any::<u32>(), 1 => Just(0u32)]), 0..=3),
+                // 254 is the last parameter number a property list can express
+                prop_oneof![20 => proptest::collection::vec(fixword(), 0..=30), 2 => proptest::collection::vec(fixword(), 200..=254), 1 => proptest::collection::vec(fixword(), 254..=254)],
+            );
+            // SLANT is the one parameter that is not bounded by 16 (TFtoPL 60, PLtoTF 93); PL reals reach 2048
+            let slant = prop_oneof![
+                12 => Just(None),
+                3 => (-(2047i32 << 20)..(2047 << 20)).prop_map(Some),
+                1 => proptest::sample::select(vec![i32::MAX, -i32::MAX, FIX_LIMIT, -FIX_LIMIT, FIX_LIMIT + 1, (2047 << 20) + 1]).prop_map(Some),
+            ];
+            let more = (
+                slant,
+                proptest::option::weighted(0.2, (any::<u8>(), any::<u16>(), any::<u16>())),
+                proptest::bool::weighted(0.35),
+                any::<u8>(),
             );
             let pools = (
                 prop_oneof![3 => proptest::collection::vec(fixword(), 1..=30), 2 => proptest::collection::vec(fixword(), 300..=340)],
@@ -1272,9 +1658,9 @@ fn recipe() -> BoxedStrategy<Recipe> {
                 any::<u8>(),
                 0u8..3,
             );
-            (header, pools, body)
+            (header, pools, body, more)
         })
-        .prop_map(|(h, p, b)| Recipe {
+        .prop_map(|(h, p, b, m)| Recipe {
             checksum: h.0,
             design_size: h.1,
             scheme: h.2,
@@ -1282,7 +1668,13 @@ fn recipe() -> BoxedStrategy<Recipe> {
             face: h.4,
             seven_flag: h.5,
             extra_header: h.6,
-            params: h.7,
+            params: {
+                let mut v = h.7;
+                if let (Some(s), Some(first)) = (m.0, v.first_mut()) {
+                    *first = s;
+                }
+                v
+            },
             widths: p.0,
             heights: p.1,
             depths: p.2,
@@ -1296,16 +1688,36 @@ fn recipe() -> BoxedStrategy<Recipe> {
             align: b.5,
             layout: b.6,
             fmt: b.7,
+            long_skip: m.1,
+            seven_bias: m.2,
+            family_kind: m.3,
         })
         .boxed()
 }
 
-fn check_generated(r: &Recipe, case: &mut Case) -> Verdict {
+fn check_generated(r: &Recipe, known_orphan: bool, case: &mut Case) -> Verdict {
     let font = build(r);
     let pl = render(&font);
     case.note = Some(pl.clone());
     let (t0, wg) = to_tfm(&pl);
-    let wg: Vec<String> = wg.into_iter().filter(|w| !(font.seven_flag == Some(true) && w.starts_with("NotReallySevenBitSafe"))).collect();
+    // PLtoTF 110: "The font is not really seven-bit-safe!" iff the list claims TRUE and PLtoTF 110-113 finds otherwise
+    let want = intended(&font);
+    let why = unsafe_reasons(&want);
+    let hash_full = want.lig.len() >= PLTOTF_HASH_SIZE;
+    let said = wg.contains(&PlWarn::SevenBit);
+    if !hash_full && said != (font.seven_flag == Some(true) && !why.is_empty()) {
+        return Verdict::Fail(format!(
+            "(gen) SEVENBITSAFEFLAG {:?}, the font is {} by PLtoTF 110-113 {:?}, but pl_to_tfm {} \"not really seven-bit-safe\"\n{}",
+            font.seven_flag,
+            if why.is_empty() { "safe" } else { "unsafe" },
+            why,
+            if said { "reports" } else { "does not report" },
+            pl
+        ));
+    }
+    case.class_if(said, "gen: SEVENBITSAFEFLAG TRUE contradicted by PLtoTF");
+    case.class_if(font.seven_flag == Some(true) && why.is_empty(), "gen: SEVENBITSAFEFLAG TRUE confirmed");
+    let wg: Vec<PlWarn> = wg.into_iter().filter(|w| *w != PlWarn::SevenBit).collect();
     if !wg.is_empty() {
         return Verdict::Fail(format!("(gen) pl_to_tfm warns about a valid generated property list: {:?}\n{}", &wg[..wg.len().min(4)], pl));
     }
@@ -1314,13 +1726,19 @@ fn check_generated(r: &Recipe, case: &mut Case) -> Verdict {
         // VP_C11_NOGEN=1 switches this pre-check off so that the self-test measures the oracle (i)-(iv) alone
         Ok(_) if std::env::var_os("VP_C11_NOGEN").is_some() => {}
         Ok(raw) => {
-            if let Err(e) = compare_with_intention(&intended(&font), &view(&raw), font.checksum.is_some()) {
+            let got = view(&raw);
+            if let Err(e) = compare_with_intention(&want, &got, font.checksum.is_some()) {
                 return Verdict::Fail(format!("(gen) pl_to_tfm(PL) is not the font the PL describes: {e}\n{pl}"));
+            }
+            if !hash_full && got.seven_bit != Some(why.is_empty()) {
+                return Verdict::Fail(format!("(gen) pl_to_tfm wrote seven-bit-safe flag {:?}; by PLtoTF 110-113 the font is {} {:?}\n{pl}", got.seven_bit, if why.is_empty() { "safe" } else { "unsafe" }, why));
             }
         }
     }
     let has_skip = font.chains.iter().flatten().any(|it| matches!(it, GItem::Step(GStep { next: GNext::Skip(m), .. }) if *m > 0));
     case.class_if(has_skip, "gen: SKIP n>0");
+    case.class_if(font.chains.iter().flatten().any(|it| matches!(it, GItem::Step(GStep { next: GNext::Skip(m), .. }) if *m >= 64)), "gen: SKIP >= 64");
+    case.class_if(font.chains.iter().flatten().any(|it| matches!(it, GItem::Step(GStep { next: GNext::Skip(127), .. }))), "gen: SKIP 127");
     case.class_if(font.chains.iter().flatten().any(|it| matches!(it, GItem::Step(GStep { next: GNext::Skip(0), .. }))), "gen: SKIP 0");
     let mid_stop = font.chains.iter().any(|ch| {
         let steps: Vec<&GStep> = ch.iter().filter_map(|it| if let GItem::Step(s) = it { Some(s) } else { None }).collect();
@@ -1329,7 +1747,7 @@ fn check_generated(r: &Recipe, case: &mut Case) -> Verdict {
     case.class_if(mid_stop, "gen: STOP inside a chain");
     case.class_if(font.checksum.is_none(), "gen: checksum computed");
     case.class_if(!font.extra_header.is_empty(), "gen: HEADER words");
-    match check_font(&t0, r.fmt, case) {
+    match check_font(&t0, r.fmt, known_orphan, case) {
         Verdict::Fail(m) => Verdict::Fail(format!("{m}\n{pl}")),
         // the generated property lists are valid by construction, so PLtoTF's output must be a clean TFM
         Verdict::Skip(why) => Verdict::Fail(format!("(gen) pl_to_tfm of a valid property list is not a warning-free TFM: {why}: {:?}\n{pl}", to_pl(&t0, r.fmt).map(|x| x.1))),
@@ -1369,7 +1787,14 @@ fn lay_table(used: &[i32], cap: usize, zero_needs_slot: bool, e: &mut Ent, plain
         // duplicates and unused entries while there is room
         let mut extra = e.below(4);
         while extra > 0 && 1 + vals.len() < cap {
-            let v = if !vals.is_empty() && e.chance(2) { vals[e.below(vals.len())] } else { (e.next() % (8 << 20)) as i32 - (4 << 20) };
+            // a duplicate, a zero (a second place for the value 0), or an unused value
+            let v = if !vals.is_empty() && e.chance(2) {
+                vals[e.below(vals.len())]
+            } else if e.chance(3) {
+                0
+            } else {
+                (e.next() % (8 << 20)) as i32 - (4 << 20)
+            };
             let at = e.below(vals.len() + 1);
             vals.insert(at, v);
             extra -= 1;
@@ -1387,17 +1812,39 @@ fn lay_table(used: &[i32], cap: usize, zero_needs_slot: bool, e: &mut Ent, plain
     (table, ix)
 }
 
-fn write_tfm(f: &GFont, seed: u64) -> Vec<u8> {
+/// What `write_tfm` did beyond laying out the font.
+struct Written {
+    bytes: Vec<u8>,
+    /// header length in words (2..=17: truncated, the later fields are absent)
+    lh: usize,
+    /// blanks were put in front of the scheme / family string
+    lead_blank: [bool; 2],
+    /// a non-existent character between existing ones got a lig tag (PLtoTF keeps it)
+    orphan_lig_inside: bool,
+}
+
+/// `safe`: the font is seven-bit safe (PLtoTF 110-113), so the file may carry the flag.
+fn write_tfm(f: &GFont, seed: u64, safe: bool) -> Written {
     let mut e = Ent(seed);
     let plain = seed % 5 == 0; // sometimes the straightforward layout
     let word = |out: &mut Vec<u8>, w: [u8; 4]| out.extend(w);
     // ---- header
     let mut header: Vec<[u8; 4]> = vec![f.checksum.unwrap_or(0).to_be_bytes(), f.design_size.to_be_bytes()];
     let short = f.scheme.is_none() && f.family.is_none() && f.face.is_none() && f.extra_header.is_empty();
+    let mut lead_blank = [false; 2];
     if !(short && e.chance(2)) {
         let mut bytes: Vec<u8> = vec![];
-        for (s, n) in [(f.scheme.clone().unwrap_or_else(|| b"UNSPECIFIED".to_vec()), 40usize), (f.family.clone().unwrap_or_else(|| b"UNSPECIFIED".to_vec()), 20usize)] {
+        for (k, (mut s, n)) in [(f.scheme.clone().unwrap_or_else(|| b"UNSPECIFIED".to_vec()), 40usize), (f.family.clone().unwrap_or_else(|| b"UNSPECIFIED".to_vec()), 20usize)].into_iter().enumerate() {
             let garbage = !plain && e.chance(3);
+            // blanks in front of the string: TFtoPL 52 prints them, PLtoTF 87 skips them
+            if !plain && e.chance(8) {
+                for _ in 0..1 + e.below(2) {
+                    if s.len() + 1 < n {
+                        s.insert(0, b' ');
+                        lead_blank[k] = true;
+                    }
+                }
+            }
             let mut field = vec![s.len() as u8];
             field.extend(&s);
             while field.len() < n {
@@ -1405,8 +1852,7 @@ fn write_tfm(f: &GFont, seed: u64) -> Vec<u8> {
             }
             bytes.extend(field);
         }
-        let all7 = f.chars.iter().all(|c| c.code < 128);
-        let flag = if all7 && e.chance(2) { 128 + (e.next() % 128) as u8 } else { (e.next() % 128) as u8 * (!plain) as u8 };
+        let flag = if safe && e.chance(2) { 128 + (e.next() % 128) as u8 } else { (e.next() % 128) as u8 * (!plain) as u8 };
         bytes.extend([flag, if plain { 0 } else { e.next() as u8 }, if plain { 0 } else { e.next() as u8 }, f.face.unwrap_or(0)]);
         for c in bytes.chunks(4) {
             header.push([c[0], c[1], c[2], c[3]]);
@@ -1418,6 +1864,12 @@ fn write_tfm(f: &GFont, seed: u64) -> Vec<u8> {
         }
         header.extend(extra);
     }
+    // a header that stops inside or between the fields: TFtoPL 48 prints the scheme iff lh >= 12, the family
+    // iff lh >= 17, face and flag iff lh >= 18; PLtoTF supplies the defaults
+    if !plain && header.len() == 18 && e.chance(3) {
+        header.truncate(2 + e.below(17));
+    }
+    let lh = header.len();
     // ---- dimension tables
     let distinct = |it: &mut dyn Iterator<Item = i32>| -> Vec<i32> { it.collect::<BTreeSet<i32>>().into_iter().collect() };
     let (wt, wi) = lay_table(&distinct(&mut f.chars.iter().map(|c| c.w)), 256, true, &mut e, plain);
@@ -1471,6 +1923,7 @@ fn write_tfm(f: &GFont, seed: u64) -> Vec<u8> {
     let left_start: Option<usize> = labels.iter().find(|(l, _)| *l == LEFT_BOUNDARY).map(|(_, p)| *p);
     let mut lk: Vec<[u8; 4]> = vec![];
     let mut remainder: BTreeMap<u8, u8> = BTreeMap::new();
+    let mut front_len = 0usize;
     if !flat.is_empty() || f.boundary.is_some() {
         // positions grouped, because two characters with one start may share a redirect
         let mut by_pos: BTreeMap<usize, Vec<u8>> = BTreeMap::new();
@@ -1515,6 +1968,7 @@ fn write_tfm(f: &GFont, seed: u64) -> Vec<u8> {
         }
         debug_assert_eq!(slots.len(), front);
         let front = slots.len();
+        front_len = front;
         for (k, s) in slots.iter().enumerate() {
             let target = s.map(|p| p + front).unwrap_or(0);
             let skip = if k == 0 && has_b { 255 } else { 129 + (e.next() % 126) as u8 * (!plain) as u8 + 125 * plain as u8 };
@@ -1609,6 +2063,36 @@ fn write_tfm(f: &GFont, seed: u64) -> Vec<u8> {
             ci[c.code as usize - bc] = [w as u8, (h * 16 + d) as u8, (i * 4) as u8 + tag, rem];
         }
     }
+    // ---- tags on char_info words of non-existent characters (width index 0). TFtoPL 67 gives a lig-tagged one
+    // a LABEL like any other character; NEXTLARGER / VARCHAR tags of such a slot are never looked at.
+    let mut orphan_lig_inside = false;
+    if !plain && !f.chars.is_empty() {
+        let (lo, hi) = (f.chars[0].code as usize, f.chars[f.chars.len() - 1].code as usize);
+        let empty: Vec<usize> = (0..ci.len()).filter(|k| ci[*k] == [0; 4] && Some((bc + k) as u8) != f.boundary).collect();
+        if !empty.is_empty() && e.chance(4) {
+            let k = empty[e.below(empty.len())];
+            // either the start of an instruction nobody else reaches, or the remainder of an existing character
+            let own: Vec<usize> = junk_before.iter().map(|p| p + front_len).filter(|p| *p < 256).collect();
+            let shared: Vec<u8> = remainder.values().copied().collect();
+            let r = if !own.is_empty() && (shared.is_empty() || e.chance(2)) {
+                Some(own[e.below(own.len())] as u8)
+            } else if !shared.is_empty() {
+                Some(shared[e.below(shared.len())])
+            } else {
+                None
+            };
+            if let Some(r) = r {
+                ci[k] = [0, 0, 1, r];
+                orphan_lig_inside = bc + k > lo && bc + k < hi;
+            }
+        }
+        if !empty.is_empty() && e.chance(6) {
+            let k = empty[e.below(empty.len())];
+            if ci[k] == [0; 4] {
+                ci[k] = if e.chance(2) { [0, 0, 2, f.chars[e.below(f.chars.len())].code] } else { [0, 0, 3, e.next() as u8] };
+            }
+        }
+    }
     // ---- assemble
     let sizes = [0usize, header.len(), bc, ec, wt.len(), ht.len(), dt.len(), it.len(), lk.len(), kt.len(), ext.len(), f.params.len()];
     let lf = 6 + header.len() + ci.len() + wt.len() + ht.len() + dt.len() + it.len() + lk.len() + kt.len() + ext.len() + f.params.len();
@@ -1640,14 +2124,28 @@ fn write_tfm(f: &GFont, seed: u64) -> Vec<u8> {
     for v in &f.params {
         word(&mut out, v.to_be_bytes());
     }
-    out
+    Written { bytes: out, lh, lead_blank, orphan_lig_inside }
 }
 
-fn check_written(r: &Recipe, case: &mut Case) -> Verdict {
-    let font = build(r);
+fn check_written(r: &Recipe, known_orphan: bool, case: &mut Case) -> Verdict {
+    let full = build(r);
+    let seed = mix(fnv64(render(&full).as_bytes()), r.layout as u64 + 256 * r.fmt as u64);
+    let want_full = intended(&full);
+    let safe = unsafe_reasons(&want_full).is_empty() && want_full.lig.len() < PLTOTF_HASH_SIZE;
+    let wr = write_tfm(&full, seed, safe);
+    // the font the file describes: a truncated header has no scheme / family / face
+    let mut font = full.clone();
+    if wr.lh < 12 {
+        font.scheme = None;
+    }
+    if wr.lh < 17 {
+        font.family = None;
+    }
+    if wr.lh < 18 {
+        font.face = None;
+    }
     let pl = render(&font);
-    let seed = mix(fnv64(pl.as_bytes()), r.layout as u64 + 256 * r.fmt as u64);
-    let t0 = write_tfm(&font, seed);
+    let t0 = wr.bytes;
     case.note = Some(format!("own TFM writer, layout seed {seed}, {} bytes; the font as PL:\n{pl}", t0.len()));
     // self-consistency of writer and reader
     match read_tfm(&t0) {
@@ -1655,12 +2153,24 @@ fn check_written(r: &Recipe, case: &mut Case) -> Verdict {
         Ok(raw) => {
             let mut want = intended(&font);
             let got = view(&raw);
-            if got.scheme.is_none() {
+            if wr.lh < 12 {
                 want.scheme = None;
+            }
+            if wr.lh < 17 {
                 want.family = None;
+            }
+            if wr.lh < 18 {
                 want.face = None;
             }
             let mut g = got.clone();
+            for (s, lead) in [(&mut g.scheme, wr.lead_blank[0]), (&mut g.family, wr.lead_blank[1])] {
+                if let (Some(v), true) = (s.as_mut(), lead) {
+                    if v.first() != Some(&b' ') {
+                        return Verdict::Fail(format!("(harness) own writer put a blank in front of a header string, own reader does not see it\n{pl}"));
+                    }
+                    *v = pl_string(v);
+                }
+            }
             // compare_views expects the canonical side upper-cased; here nothing was converted yet
             g.scheme = g.scheme.or(Some(b"UNSPECIFIED".to_vec())).map(|s| upper(&s));
             g.family = g.family.or(Some(b"UNSPECIFIED".to_vec())).map(|s| upper(&s));
@@ -1672,8 +2182,10 @@ fn check_written(r: &Recipe, case: &mut Case) -> Verdict {
     }
     case.class_if(seed % 5 == 0, "layout: plain");
     case.class_if(seed % 5 != 0, "layout: scrambled");
-    let verdict = check_font(&t0, r.fmt, case);
-    if let Verdict::Pass { .. } = verdict {
+    let verdict = check_font(&t0, r.fmt, known_orphan, case);
+    // a lig tag on a non-existent character between existing ones is data PLtoTF keeps: then the file is
+    // not "the same font" as the property list, and (v) does not apply
+    if let (Verdict::Pass { .. }, false) = (&verdict, wr.orphan_lig_inside) {
         // (v) "canonical": the same font written in two different ways (own scrambled layout, and PLtoTF's
         // layout of the rendered property list) must normalise to the same bytes. Only the check sum may
         // differ when the property list leaves it to PLtoTF.
@@ -1757,15 +2269,52 @@ fn corpus_files(ext: &str) -> Vec<CorpusCase> {
     out
 }
 
+/// A TFM file given byte by byte (hex, blanks ignored): hand-made files and witnesses of findings.
+#[derive(Clone, Debug, Serialize, Deserialize)]
+pub struct RawCase {
+    pub what: String,
+    pub hex: String,
+}
+
+fn unhex(s: &str) -> Vec<u8> {
+    let d: Vec<u8> = s.bytes().filter_map(|c| (c as char).to_digit(16).map(|x| x as u8)).collect();
+    d.chunks(2).filter(|c| c.len() == 2).map(|c| c[0] * 16 + c[1]).collect()
+}
+
+/// Two characters A, B (width 1.0) in a file with bc = 60: the char_info word of the non-existent character 60 is
+/// `[0,0,1,rem]`. `own`: its instruction is reached by nobody else; otherwise A starts at the same instruction.
+fn raw_orphan_file(own: bool, inside: bool) -> RawCase {
+    // lf lh bc ec nw nh nd ni nl nk ne np ; header ; char_info ; width ; height depth italic ; lig/kern ; kern
+    let (bc, ec) = if inside { (0x41, 0x47) } else { (0x3c, 0x42) };
+    let n = ec - bc + 1;
+    let mut ci = vec!["00000000".to_string(); n];
+    let (a, b, o) = if inside { (0, 6, 3) } else { (5, 6, 0) };
+    ci[a] = if own { "01000000".into() } else { "01000100".into() };
+    ci[b] = "01000000".into();
+    ci[o] = "00000100".into();
+    let lf = 6 + 2 + n + 2 + 1 + 1 + 1 + 1 + 1;
+    let hex = format!(
+        "{:04x}0002 {:04x}{:04x} 00020001 00010001 00010001 00000000 00000000 00a00000 {} 00000000 00100000 00000000 00000000 00000000 80{:02x}8000 00080000",
+        lf,
+        bc,
+        ec,
+        ci.join(" "),
+        bc + b
+    );
+    RawCase { what: format!("lig tag on a non-existent character {} the range of existing characters, {}", if inside { "inside" } else { "outside" }, if own { "the only way into its instruction" } else { "sharing its instruction with an existing character" }), hex }
+}
+
 pub fn run(ctx: &Ctx) {
-    ctx.rule("A case is one font (a corpus .tfm, pl_to_tfm of a corpus .plst, pl_to_tfm of a generated property list rendered as PL text, or the same generated font laid out by an independent TFM writer with shuffled/duplicated/unused table entries, needless entry-point redirects and unreachable instructions) whose tfm_to_pl conversion is warning-free; it is non-trivial iff its lig/kern program has two labels (characters or the left boundary) walking through a common instruction, or more than 255 instructions, or a rule for the left or right boundary. Distinct = distinct generated structure / distinct file.");
+    ctx.rule("A case is one font (a corpus .tfm, pl_to_tfm of a corpus .plst, pl_to_tfm of a generated property list rendered as PL text, or the same generated font laid out by an independent TFM writer with shuffled/duplicated/unused table entries, needless entry-point redirects and unreachable instructions) whose tfm_to_pl conversion is warning-free; it is non-trivial iff its lig/kern program has two labels (characters or the left boundary) walking through a common instruction, or more than 255 instructions, or a rule for the left or right boundary. Distinct = distinct generated structure / distinct file. Shapes that are generated and counted as classes: header lengths 2..17 and > 18 (last word zero), header strings of full length / with leading (TFM side) and trailing blanks, SLANT beyond 16, exactly 254 parameters, SKIP up to 127 over reachable and unreachable instructions and onto the last instruction, kern indices >= 256 in the canonical file, fonts mixing codes below and above 127 with every way of being seven-bit unsafe, lig/NEXTLARGER/VARCHAR tags on char_info words of non-existent characters inside and outside the range of existing characters (hand-made files in raw_tfm and the own writer).");
     ctx.assume("Fonts whose first tfm_to_pl conversion warns, errors or panics are outside the quantifier and are skipped (counted).");
     ctx.assume("TFtoPL 52 upper-cases the coding scheme and family silently, PLtoTF 70 supplies UNSPECIFIED/face 0 for header fields a short header lacks, and PLtoTF recomputes the seven-bit-safe flag: the header comparison expects exactly these normalisations; header bytes TFtoPL never prints (padding after the strings, bytes 1-2 of word 17) are not compared.");
-    ctx.assume("Characters are those with a non-zero width index; tags and lig/kern labels of non-existent characters are not compared.");
+    ctx.assume("Characters are those with a non-zero width index; tags and lig/kern labels of non-existent characters are not compared, but files that carry them (own TFM writer, hand-made files) must still normalise to a fixed point.");
+    ctx.assume("Seven-bit-safe flag: PLtoTF 133 writes the flag it computed (110-113: no existing character below 128, nor the left boundary program, generates a character above 127 through an effective LIG instruction whose right character is below 128 or the boundary character, NEXTLARGER or VARCHAR), so the canonical file must carry the flag iff an independent evaluation of that rule on the raw bytes says safe; not demanded for fonts with 5003 or more distinct lig/kern pairs (PLtoTF's hash table overflows there). PLtoTF 87 skips blanks in front of a header string; trailing blanks are kept.");
 
     ctx.assume("Generated fonts are loop-free by construction (a ligature only inserts a character of strictly higher level than every character whose program reaches the instruction and than the right character), reference only existing characters, keep |dimension| < 16, design size in [1,2048), at most 15/15/63 distinct non-zero heights/depths/italics and 255 widths; a generated font whose conversion is not warning-free is reported as a failure, not skipped.");
     ctx.assume("Fonts with more than 254 parameters, or whose seven-bit-safe flag is wrongly set, cannot be expressed in PL without a PLtoTF warning and are skipped (counted); any other pl_to_tfm warning about tfm_to_pl's own warning-free output is a failure.");
-    // VP_C11_SUB=generated|generated_tfm|corpus_tfm|corpus_pl restricts a generate run to one sub-check (used for the sensitivity self-test).
+    let known_orphan = ctx.known(ORPHAN_FLAG);
+    // VP_C11_SUB=generated|generated_tfm|corpus_tfm|corpus_pl|raw_tfm restricts a generate run to one sub-check (used for the sensitivity self-test).
     let only = std::env::var("VP_C11_SUB").ok().filter(|_| ctx.is_generate());
     let want = |name: &str| only.as_deref().map(|o| o == name).unwrap_or(true);
     let files = if want("corpus_tfm") { corpus_files("tfm") } else { vec![] };
@@ -1776,7 +2325,7 @@ pub fn run(ctx: &Ctx) {
     run_list(ctx, "corpus_tfm", files, |c: &CorpusCase, case: &mut Case| {
         let Ok(b) = std::fs::read(format!("{}/{}", repo_root(), c.path)) else { return Verdict::Skip("unreadable file") };
         case.note = Some(c.path.clone());
-        check_font(&b, 0, case)
+        check_font(&b, 0, known_orphan, case)
     });
     run_list(ctx, "corpus_pl", if want("corpus_pl") { corpus_files("plst") } else { vec![] }, |c: &CorpusCase, case: &mut Case| {
         let Ok(s) = std::fs::read_to_string(format!("{}/{}", repo_root(), c.path)) else { return Verdict::Skip("unreadable file") };
@@ -1785,8 +2334,16 @@ pub fn run(ctx: &Ctx) {
             Ok((b, _)) => b,
             Err(_) => return Verdict::Skip("pl_to_tfm(corpus plst) panics (C10 territory)"),
         };
-        check_font(&t0, 0, case)
+        check_font(&t0, 0, known_orphan, case)
     });
-    run_generated(ctx, "generated_tfm", if want("generated_tfm") { ctx.tier.pick(4_000, 120_000) } else { 0 }, recipe, check_written);
-    run_generated(ctx, "generated", if want("generated") { ctx.tier.pick(6_000, 180_000) } else { 0 }, recipe, check_generated);
+    let raws = if want("raw_tfm") { vec![raw_orphan_file(false, true), raw_orphan_file(true, true), raw_orphan_file(false, false), raw_orphan_file(true, false)] } else { vec![] };
+    run_list(ctx, "raw_tfm", raws, |c: &RawCase, case: &mut Case| {
+        case.note = Some(c.what.clone());
+        match check_font(&unhex(&c.hex), 0, known_orphan, case) {
+            Verdict::Skip(why) => Verdict::Fail(format!("(raw) a hand-made legal TFM does not convert warning-free: {why}")),
+            v => v,
+        }
+    });
+    run_generated(ctx, "generated_tfm", if want("generated_tfm") { ctx.tier.pick(4_000, 120_000) } else { 0 }, recipe, |r: &Recipe, case: &mut Case| check_written(r, known_orphan, case));
+    run_generated(ctx, "generated", if want("generated") { ctx.tier.pick(6_000, 180_000) } else { 0 }, recipe, |r: &Recipe, case: &mut Case| check_generated(r, known_orphan, case));
 }
